@@ -1,9 +1,92 @@
+import Drx.Stxt
+import Drx.Fmap
+import Drx.TextSpec
+import Drx.Codec
 import Drx.Drv.Util
 namespace Drx.Drv.Text
-open Drx Drx.Drv
+open Drx Drx.Drv Drx.Fmap Drx.Stxt Drx.TextSpec
 
-/-- commands of the `text` family (stub: nothing implemented yet) -/
+/-- "-" = empty list, else comma separated -/
+def items (s : String) : List String := if s = "-" then [] else s.splitOn ","
+
+/-- "x<hex>" (so that the empty byte string is the non-empty token "x") -/
+def xhex (s : String) : Option Bytes :=
+  match s.toList with
+  | 'x' :: rest => bytesOfHexAux rest []
+  | _ => none
+
+def codecDec (name : String) : Option Dec := (Codec.ofName name).map fun c => decodeText c
+
+def hx (b : Bytes) : String := if b.isEmpty then "-" else hexOfBytes b
+
+/-- Drx/Json.lean used to leave U+007F raw while Python's json.dumps escapes it; harmless after the core fix -/
+def fixDel (s : String) : String := s.replace (String.singleton (Char.ofNat 0x7f)) "\\u007f"
+
+def rJ' (f : α → J) (r : R α) : String := fixDel (rJ f r)
+
+/-- font map entry `id:x<utf-8 bytes of the name>` (names handed to parse_stxt_data are already str) -/
+def fontInfo (s : String) : Option FontInfo :=
+  match s.splitOn ":" with
+  | [a, b] => do
+    let id ← parseInt a; let nb ← xhex b
+    match decodeUtf8 nb with
+    | .ok t => some ⟨t, id⟩
+    | .error _ => none
+  | _ => none
+
+def byteTok (s : String) : Option UInt8 := do
+  let n ← parseNat s
+  if n < 256 then some (UInt8.ofNat n) else none
+
+def runSpec (s : String) : Option RunSpec :=
+  match s.splitOn ":" with
+  | [u2, st, u4, u5, fid, fmt, u7, sz, r, r2, g, g2, b, b2] => do
+    some ⟨← parseInt u2, ← parseInt st, ← parseInt u4, ← parseInt u5, ← parseInt fid, ← byteTok fmt, ← byteTok u7, ← parseInt sz,
+          ← byteTok r, ← byteTok r2, ← byteTok g, ← byteTok g2, ← byteTok b, ← byteTok b2⟩
+  | _ => none
+
+def fontSpec (s : String) : Option FontSpec :=
+  match s.splitOn ":" with
+  | [id, u, name, pad] => do some ⟨← parseInt id, ← parseInt u, ← xhex name, ← xhex pad⟩
+  | _ => none
+
+def slotSpec (s : String) : Option SlotSpec :=
+  match s.splitOn ":" with
+  | [d, u, id] => do some ⟨← parseInt d, ← parseInt u, ← parseInt id⟩
+  | _ => none
+
+def fmapHdr (s : String) : Option FmapHdr :=
+  match s.splitOn ":" with
+  | [a, b, c, d, e, f, g, h, i, j] => do
+    some ⟨← parseInt a, ← parseInt b, ← parseInt c, ← parseInt d, ← parseInt e, ← parseInt f, ← parseInt g, ← parseInt h, ← parseInt i, ← parseInt j⟩
+  | _ => none
+
+def fontsJ (l : List FontInfo) : J := .arr (l.map FontInfo.toJ)
+
+/-- commands of the `text` family (see harness/c16.py).  `enc…` commands apply the encoders of Drx/TextSpec.lean
+    (the ones the theorems of DrxProps/C16.lean are about) to a spec object and print the bytes. -/
 def run : List String → Option String
+  | ["stxt", c, fm, h] => do
+    let dec ← codecDec c; let fm ← (items fm).mapM fontInfo; let b ← bytesOfHex h
+    some (rJ' TextData.toJ (parseStxt dec fm b))
+  | ["encstxt", gap, text, fds, runs, tail] => do
+    let gap ← bytesOfHex gap; let text ← xhex text; let fds ← parseInt fds
+    let runs ← (items runs).mapM runSpec; let tail ← bytesOfHex tail
+    some (hx (encStxt gap text fds runs tail))
+  | ["fmap", c, h] => do
+    let dec ← codecDec c; let b ← bytesOfHex h
+    some (rJ' fontsJ (parseFmap dec b))
+  | ["encfmap", hdr, fonts, unused, htail, bpre, btail] => do
+    let hdr ← fmapHdr hdr; let fonts ← (items fonts).mapM fontSpec; let unused ← (items unused).mapM slotSpec
+    let htail ← bytesOfHex htail; let bpre ← bytesOfHex bpre; let btail ← bytesOfHex btail
+    some (hx (encFmap hdr fonts unused htail bpre btail))
+  | ["pipeline", c, fh, sh] => do
+    -- what stxt2json does: the font map decoded from the Fmap chunk is handed to the text decoder
+    let dec ← codecDec c; let fb ← bytesOfHex fh; let sb ← bytesOfHex sh
+    some (rJ' TextData.toJ ((parseFmap dec fb).bind fun fm => parseStxt dec fm sb))
+  | ["specfont", fm, id] => do
+    let fm ← (items fm).mapM fontInfo; let id ← parseInt id
+    some (fixDel (J.str (specFont fm id)).render)
   | _ => none
 
 end Drx.Drv.Text
